@@ -371,6 +371,7 @@ enum Pl {
     Pair(u8, Vec<u8>),
     TPair(usize, Vec<u8>),
     Section(Vec<u8>),
+    SectionIter(usize, Vec<u8>),
     Type(usize),
     RefU32(u32),
 }
@@ -396,6 +397,14 @@ impl WriteToHeader for Pl {
             Pl::Pair(k, v) => (*k, v.as_slice()).write_to(w),
             Pl::TPair(t, v) => (TYPES[*t], v.as_slice()).write_to(w),
             Pl::Section(b) => v2::TypeLengthValues::from(b.as_slice()).write_to(w),
+            Pl::SectionIter(n, b) => {
+                // the section value has been iterated n times before it is written
+                let mut t = v2::TypeLengthValues::from(b.as_slice());
+                for _ in 0..*n {
+                    let _ = t.next();
+                }
+                t.write_to(w)
+            }
             Pl::Type(t) => TYPES[*t].write_to(w),
             Pl::RefU32(v) => (&v).write_to(w),
         }
@@ -433,6 +442,10 @@ fn payload(s: &str) -> Pl {
             Pl::TPair(k.parse().unwrap(), bytes_expr(v))
         }
         "s" => Pl::Section(bytes_expr(rest)),
+        "S" => {
+            let (n, v) = rest.split_once(':').unwrap();
+            Pl::SectionIter(n.parse().unwrap(), bytes_expr(v))
+        }
         "y" => Pl::Type(rest.parse().unwrap()),
         k => panic!("bad payload kind {}", k),
     }
